@@ -65,7 +65,12 @@ class _CountingWriter:
 
 
 @contextlib.contextmanager
-def instrumented(decl: pa.Schema | None = None, cancel_raises: bool = False) -> Iterator[None]:
+def instrumented(decl: pa.Schema | None = None, cancel_raises: bool = False, net: dict[str, Any] | None = None) -> Iterator[None]:
+    """`net` = {"retries": n | None, "lost": [k, …], "status": 502}: the HTTP client is given
+    HttpRetryConfig(max_retries=n) (None = no retry config) and sits behind a gateway that forwards every POST to the
+    server and then LOSES the response of the k-th POST of the run (0-based, counting every attempt, /init included),
+    answering with the retryable status instead — the proxy failure after the origin has processed the request."""
+    import vgi_rpc.http as http_pkg
     from vgi_rpc.http import _testing
     from vgi_rpc.http.server import _app_stream
     from vgi_rpc.rpc import _client as rpc_client
@@ -74,6 +79,17 @@ def instrumented(decl: pa.Schema | None = None, cancel_raises: bool = False) -> 
     saved_process, saved_cancel = svcgen.ScriptState.process, svcgen.ScriptState.on_cancel
     saved_post, saved_mint = _testing._SyncTestClient.post, _app_stream._mint_cursor_token
     saved_init = rpc_client.StreamSession.__init__
+    saved_connect = http_pkg.http_connect
+    posts = [0]
+    lost = set((net or {}).get("lost", []))
+    status = (net or {}).get("status", 502)
+
+    def connect(*a: Any, **kw: Any) -> Any:
+        if net is not None and net.get("retries") is not None:
+            from vgi_rpc.http._retry import HttpRetryConfig
+
+            kw.setdefault("retry", HttpRetryConfig(max_retries=net["retries"], backoff_base=0.0, backoff_max=0.0))
+        return saved_connect(*a, **kw)
 
     def make_input(v: Any, variant: Any = "ok") -> Any:
         if isinstance(variant, dict):
@@ -91,7 +107,13 @@ def instrumented(decl: pa.Schema | None = None, cancel_raises: bool = False) -> 
 
     def post(self: Any, url: str, **kw: Any) -> Any:
         svcgen.EVENTS.append(("http", url.rsplit("/", 1)[-1]))
-        return saved_post(self, url, **kw)
+        k = posts[0]
+        posts[0] += 1
+        resp = saved_post(self, url, **kw)          # the origin handles the request …
+        if k in lost:
+            svcgen.EVENTS.append(("lost", k))
+            return _testing._SyncTestResponse(status, b"bad gateway", headers={})   # … and the gateway loses its answer
+        return resp
 
     def mint(state: Any, *a: Any, **kw: Any) -> Any:
         svcgen.EVENTS.append(("mint", getattr(state, "i", None)))
@@ -109,6 +131,7 @@ def instrumented(decl: pa.Schema | None = None, cancel_raises: bool = False) -> 
         _testing._SyncTestClient.post = post  # type: ignore[method-assign]
         _app_stream._mint_cursor_token = mint
         rpc_client.StreamSession.__init__ = ss_init  # type: ignore[method-assign]
+        http_pkg.http_connect = connect
         yield
     finally:
         svcgen.IN_SCHEMA, svcgen.make_input = saved_schema, saved_make
@@ -116,10 +139,11 @@ def instrumented(decl: pa.Schema | None = None, cancel_raises: bool = False) -> 
         _testing._SyncTestClient.post = saved_post  # type: ignore[method-assign]
         _app_stream._mint_cursor_token = saved_mint
         rpc_client.StreamSession.__init__ = saved_init  # type: ignore[method-assign]
+        http_pkg.http_connect = saved_connect
 
 
 def run_ops(desc: dict[str, Any], method: str, ops: list[list[Any]], cfg: svcgen.Config, decl: pa.Schema | None = None,
-            cancel_raises: bool = False, deadline: float = 30.0) -> dict[str, Any]:
+            cancel_raises: bool = False, deadline: float = 30.0, net: dict[str, Any] | None = None) -> dict[str, Any]:
     """Open `method` of the generated service over `cfg` and run the client ops on that one session.
 
     ops: ["next"] | ["iter", n|None] | ["tick"] | ["send", {"cols": …}] | ["close"] | ["cancel"]
@@ -201,7 +225,7 @@ def run_ops(desc: dict[str, Any], method: str, ops: list[list[Any]], cfg: svcgen
             conn.close()
             out["events"].append(cut())   # whatever happened while the connection was torn down
 
-    with instrumented(decl, cancel_raises):
+    with instrumented(decl, cancel_raises, net):
         th = threading.Thread(target=body, daemon=True)
         th.start()
         th.join(deadline)
